@@ -79,6 +79,10 @@ def collectVarDom (parseDomains : Bool) (cs : List Char) : Option (Name Ã— Optio
         | none => none
         | some cs11 => some (name, dom, cs11)
 
+/-- the peeked next character is a name character (`3`/`V` then start a proposition name) -/
+def nextIsName (cs : List Char) : Bool :=
+  match cs.head? with | some c' => isName K c' | none => false
+
 def cons (t : Tok) : Except LErr (List Tok Ã— List Char) â†’ Except LErr (List Tok Ã— List Char)
   | .ok (ts, r) => .ok (t :: ts, r)
   | .error e => .error e
@@ -140,8 +144,8 @@ def lexRec (ext : Bool) : Nat â†’ Bool â†’ List Char â†’ Except LErr (List Tok Ã
           | none => .error .lex
       | [] => .error .lex
     else if c = '!' then hybrid .bind ext cs
-    else if c = '3' && !(match cs.head? with | some c' => isName K c' | none => false) then hybrid .ex ext cs
-    else if c = 'V' && !(match cs.head? with | some c' => isName K c' | none => false) then hybrid .all ext cs
+    else if c = '3' && !nextIsName K cs then hybrid .ex ext cs
+    else if c = 'V' && !nextIsName K cs then hybrid .all ext cs
     else if c = '@' then hybrid .jump false cs
     else if c = '\\' then
       let (opName, rest) := collectName K cs
